@@ -313,6 +313,15 @@ func (s *StateMachine) ApplyTransactions(ctx context.Context, txs [][]byte, r *l
 	defer s.SetStore(originalStore)
 	// create a variable to track if the block is over size
 	var oversize bool
+	// the writes of 'oversize' transactions are rolled back with their store transaction: the side state they touched (account,
+	// pool and parameter caches, the slash tracker) must be rolled back with them or the rest of the block (EndBlock) reads it
+	var preOversizeSlashTracker *SlashTracker
+	defer func() {
+		if oversize {
+			s.ResetCaches()
+			s.slashTracker = preOversizeSlashTracker
+		}
+	}()
 	var executeDuration, flushDuration time.Duration
 	// iterates over each transaction in the block
 	for i, tx := range txs {
@@ -341,6 +350,8 @@ func (s *StateMachine) ApplyTransactions(ctx context.Context, txs [][]byte, r *l
 			}
 			// set oversize to 'true'
 			oversize = true
+			// snapshot the trackers the oversize transactions must not leave a trace in
+			preOversizeSlashTracker = s.slashTracker.Clone()
 			// wrap the store in a 'database transaction' to rollback all the 'oversize transactions'
 			if _, e := s.TxnWrap(); e != nil {
 				return e
